@@ -491,7 +491,121 @@ func firstN(s []string, n int) []string {
 	return s
 }
 
+
+// c06ExpiryVsSet: a SetWithTTL on a key whose old value has expired but is not reclaimed yet,
+// racing the timer wheel's expiry of that entry. The order is forced with a held shard read
+// lock (a Range callback parked on a neighbour key of the same shard): the Set queues for
+// the write lock first, the expiry path - which has already judged the entry expired and
+// taken it out of policy and wheel - queues behind it. After the reader lets go the Set
+// updates the entry in place and returns true; the new value must then be readable, must
+// not be reported EXPIRED, and the quiescent invariants must hold.
+func c06ExpiryVsSet(r *Run, variant int) {
+	nl := &noteLog[int, int64]{}
+	c, err := theine.NewBuilder[int, int64](100).RemovalListener(nl.listener()).Build()
+	if err != nil {
+		r.Broken("build: %v", err)
+		return
+	}
+	defer c.Close()
+	st := c.VerifStore()
+	k := 10 + variant
+	neighbour := -1
+	for cand := 1000; cand < 100000; cand++ {
+		if st.VerifShardOf(cand) == st.VerifShardOf(k) {
+			neighbour = cand
+			break
+		}
+	}
+	v1, v2 := int64(7001), int64(7002)
+	c.SetWithTTL(k, v1, 1, 5*time.Second)
+	c.Set(neighbour, 1, 1)
+	c.Wait()
+	st.VerifShiftClock(6*time.Second, true) // v1 is past its deadline, not reclaimed yet
+	script := []string{fmt.Sprintf("SetWithTTL(%d, %d, 5s); virtual time +6s (expired, not reclaimed)", k, v1)}
+	gate := make(chan struct{})
+	inRange := make(chan struct{})
+	rangeDone := make(chan struct{})
+	go func() {
+		defer close(rangeDone)
+		c.Range(func(key int, _ int64) bool {
+			if key == neighbour {
+				close(inRange)
+				<-gate
+				return false
+			}
+			return true
+		})
+	}()
+	select {
+	case <-inRange:
+	case <-time.After(10 * time.Second):
+		r.Inconclusive(1)
+		close(gate)
+		return
+	}
+	script = append(script, "Range callback parked on a neighbour key: shard read lock held")
+	parkedIn := func(frame, state string) bool {
+		for i := 0; i < 2000; i++ {
+			for _, g := range parseGoroutines(allStacks()) {
+				if g.has(frame) && strings.HasPrefix(g.State, state) {
+					return true
+				}
+			}
+			time.Sleep(500 * time.Microsecond)
+		}
+		return false
+	}
+	var setOK bool
+	setDone := make(chan struct{})
+	go func() { setOK = c.SetWithTTL(k, v2, 1, time.Hour); close(setDone) }()
+	if !parkedIn(").setShard(", "sync.") {
+		r.Inconclusive(1)
+		close(gate)
+		return
+	}
+	script = append(script, fmt.Sprintf("SetWithTTL(%d, %d, 1h) queued for the shard write lock", k, v2))
+	tickDone := make(chan struct{})
+	go func() { st.VerifTick(); close(tickDone) }()
+	if !parkedIn(").removeEntry(", "sync.") {
+		r.Inconclusive(1)
+		close(gate)
+		<-setDone
+		return
+	}
+	script = append(script, "tick: expiry of the key judged it expired, left the policy, queued for the shard lock behind the Set")
+	close(gate)
+	<-rangeDone
+	<-setDone
+	<-tickDone
+	c.Wait()
+	got, ok := c.Get(k)
+	script = append(script, fmt.Sprintf("reader released; SetWithTTL returned %v; Get(%d) -> (%d, %v)", setOK, k, got, ok))
+	wit := map[string]any{"script": script, "variant": variant}
+	if setOK && (!ok || got != v2) {
+		r.Violate("set-true-not-readable/set-raced-expiry-of-the-old-value", fmt.Sprintf("SetWithTTL(%d, %d, 1h) returned true while the timer wheel was expiring the key's old value, but Get gives (%d,%v); script: %v", k, v2, got, ok, script), wit)
+	}
+	for _, n := range nl.snapshot() {
+		if n.Val == v2 {
+			r.Violate("lost-without-reason/new-value-notified-"+reasonName(n.Reason)+"/set-raced-expiry-of-the-old-value", fmt.Sprintf("the value %d stored with a TTL of 1h was removed and reported %s right away; script: %v", v2, reasonName(n.Reason), script), wit)
+		}
+	}
+	for _, is := range checkQuiescent(st.VerifSnapshot(), c.EstimatedSize(), true) {
+		r.Violate(is.Key+"/set-raced-expiry-of-the-old-value", is.What+fmt.Sprintf("; script: %v", script), wit)
+	}
+	r.Eval(1)
+	r.Count("expiry_vs_set_scenarios", 1)
+	r.Distinct(fmt.Sprintf("expiry-vs-set/%d", variant%4))
+	if variant == 0 {
+		r.Sample(10, map[string]any{"expiry_vs_set": script})
+	}
+}
+
 func runC06(r *Run) {
+	defer func() {
+		for i := 0; i < r.Pick(2, 8); i++ {
+			c06ExpiryVsSet(r, r.Shard*8+i)
+		}
+	}()
 	r.Rule("case = one sequential operation sequence (Set / SetWithTTL / Delete / loading Get / virtual-time step / tick / probe; costs 1..room and deliberately oversize; doorkeeper on/off; cost function on/off; plain and loading) checked step by step against a reference model whose occupancy never exceeds MaxSize. " +
 		"Non-trivial = the sequence wrote to a key at or near an earlier deadline of that key, or attempted an oversize cost; distinct by configuration + hash of the op-kind sequence")
 	r.Assume("sequential client, so events reach the policy in operation order; occupancy counts expired-but-unreclaimed keys until their EXPIRED notification",
